@@ -16,6 +16,10 @@ READY = ['C01', 'C02', 'C03', 'C04', 'C05', 'C06', 'C07', 'C08', 'C09', 'C10', '
 
 PROPS['C19'] = dict(
     harness=['h_int.c', 'h_int_ext.c'],
+    # 'clang': the library (and with it the exported copies of the inline functions, which h_int_ext.c calls) compiled by clang 14:
+    # compiler-conditional code (__has_builtin, version tests) takes its other arm there (seeded change C19-I)
+    configs=lambda tier: [dict(name='default'), dict(name='clang', libcc='clang', nworkers=4)],
+    parallel_configs=2,
     level='exploration',
     rule='inputs are enumerated (exhaustive ranges, k^2 and k^2+-1, 2^n and 2^n+-1, all pairs <1024) or drawn at random with '
          'uniformly distributed bit length; each is judged by exact integer arithmetic (64/128-bit squares, independent binary gcd, '
